@@ -137,7 +137,8 @@ static void t_copy(const char *s) {
 /* ---- tokenizer ---- */
 static const char *DEL;
 static void t_tok(const char *s) {
-    BEGIN("qstrtok", "tok:%s:%s", DEL, hx_);
+    char delhx[32]; vc_hex(delhx, (const unsigned char *)DEL, strlen(DEL));     /* the delimiter set in hex: it may hold bytes that are no text */
+    BEGIN("qstrtok", "tok:%s:%s", delhx, hx_);
     char *p = hs(s, 0); int off = 0; char stop; const char *q = s; int done = 0, nf = 0;
     for (;;) {
         stop = 0x7e;
@@ -265,7 +266,7 @@ static void t_dup(const char *s) {
 
 static const char *toks[] = {"a", "b", "ab", "ba", "aa", "bb", "aba", "aab", "abb", "baa", "bab", "bba", "aaa", "bbb"};
 static const char *words[] = {"", "a", "b", "x", "ab", "ax", "xa", "xx", "aa", "ba", "abx", "aab", "xab", "aba", "xxx", "bax"};
-static const char *dels[] = {":", ":,", ","};
+static const char *dels[] = {":", ":,", ",", "\xa7", ":\xff"};   /* the last two: delimiter bytes above 0x7f (char is signed here) */
 
 /* qstrreplace sizes its result from the product of the operand lengths: operands around 2^16 bytes put that product around 2^32.
  * One token at the end of the source, so the true result stays small; NULL with ENOMEM is accepted (the worst-case buffer is 4 GiB) */
@@ -302,7 +303,7 @@ static int replay(const char *key) {
         static char tk[16], wd[16]; strcpy(tk, part[1]); strcpy(wd, part[2]); TOK = tk; WORD = wd; n = vc_unhex(part[3], raw); memcpy(s, raw, n); s[n] = 0; t_repl(s); return 0;
     }
     if (!strcmp(part[0], "tok")) {  /* DEL may itself contain ':' */
-        const char *h = strrchr(key, ':'); static char dl[8]; size_t l = h - (key + 4); memcpy(dl, key + 4, l); dl[l] = 0; DEL = dl; n = vc_unhex(h + 1, raw); memcpy(s, raw, n); s[n] = 0; t_tok(s); return 0;
+        const char *h = strrchr(key, ':'); static char dl[16]; char dh[32]; size_t l = h - (key + 4); memcpy(dh, key + 4, l); dh[l] = 0; l = vc_unhex(dh, (unsigned char *)dl); dl[l] = 0; DEL = dl; n = vc_unhex(h + 1, raw); memcpy(s, raw, n); s[n] = 0; t_tok(s); return 0;
     }
     if (!strcmp(part[0], "dup")) { static char a[8], b[8]; strcpy(a, part[1]); strcpy(b, part[2]); DSTART = a; DEND = b; n = vc_unhex(part[3], raw); memcpy(s, raw, n); s[n] = 0; t_dup(s); return 0; }
     n = vc_unhex(part[1], raw); memcpy(s, raw, n); s[n] = 0;
@@ -325,7 +326,7 @@ static int worker(int argc, char **argv) {
     }
     else if (!strcmp(m, "replacebig")) t_replbig();
     else if (!strcmp(m, "copy")) { gen("ab\x80", 3, 6 + X, t_copy); vc_sample("qstrncpy(dst[size], size in 1..n+2, src, nbytes in 0..n) and overlapping src/dst"); }
-    else if (!strcmp(m, "tok")) { for (int i = 0; i < 3; i++) { DEL = dels[i]; gen("ab:,", 4, 8 + X, t_tok); } vc_sample("qstrtok(\"a::b,\", \":,\") fields a | '' | b"); }
+    else if (!strcmp(m, "tok")) { for (int i = 0; i < 3; i++) { DEL = dels[i]; gen("ab:,", 4, 8 + X, t_tok); } for (int i = 3; i < 5; i++) { DEL = dels[i]; gen("a:\xa7\xff", 4, 7 + X, t_tok); } vc_sample("qstrtok(\"a::b,\", \":,\") fields a | '' | b"); }
     else if (!strcmp(m, "gets")) { gen("ab\n\r", 4, 8 + X, t_gets); vc_sample("qstrgets over \"a\\r\\n\\nb\" with size 2..9 and 32"); }
     else if (!strcmp(m, "misc")) { gen("azAZ@[`{\x80\xe0", 10, 5 + X, t_misc); vc_sample("qstrrev/qstrupper/qstrlower(\"aZ@{\\x80\\xe0\")"); }
     else if (!strcmp(m, "dup")) {
